@@ -714,7 +714,7 @@ fn c07(sc: &Scenario, r: &Report, o: &mut Outcome) {
         End::Deadlock(_) | End::StepLimit => {
             let lost: Vec<usize> = (0..n).filter(|&i| r.exec_count.get(i).copied().unwrap_or(0) == 0).collect();
             let unfinished: Vec<usize> = (0..n).filter(|&i| !r.done.get(i).copied().unwrap_or(false)).collect();
-            let has_rdv = p.tasks.iter().any(|t| *t == TaskKind::Rendezvous);
+            let has_rdv = p.tasks.iter().any(|t| *t == TaskKind::Rendezvous || matches!(t, TaskKind::Round(_)));
             let has_gate = p.tasks.iter().any(|t| *t == TaskKind::Gated);
             let what = if r.end == End::StepLimit { "step bound exhausted" } else { "every task is blocked" };
             let class = if has_rdv {
